@@ -41,7 +41,7 @@ func (pass *RenameObject) processObject(visitor *Visitor, schema *ast.Schema, ob
 }
 
 func (pass *RenameObject) processRef(_ *Visitor, _ *ast.Schema, def ast.Type) (ast.Type, error) {
-	if def.Ref.ReferredPkg == pass.From.Package && def.Ref.ReferredType == pass.From.Object {
+	if pass.From.MatchesRef(def.AsRef()) {
 		def.Ref.ReferredType = pass.To
 	}
 
